@@ -70,6 +70,7 @@ type ResourcePool struct {
 	baseCapacity sync2.AtomicInt64
 	maxCapacity  sync2.AtomicInt64
 	lock         *sync.Mutex
+	scaleLock    sync.Mutex // serializes ScaleCapacity so that each caller drains its own share
 	scaleOutTime int64
 	scaleInTodo  chan int8
 	Dynamic      bool
@@ -338,6 +339,11 @@ func (rp *ResourcePool) ScaleCapacity(capacity int) error {
 	if capacity < 0 || capacity > int(rp.maxCapacity.Get()) {
 		return fmt.Errorf("capacity %d is out of range", capacity)
 	}
+
+	// Only one resize at a time: a shrink waits for resources to be returned, and
+	// a concurrent Close must not close the channel while that wait is pending.
+	rp.scaleLock.Lock()
+	defer rp.scaleLock.Unlock()
 
 	// Atomically swap new capacity with old, but only
 	// if old capacity is non-zero.
